@@ -7,3 +7,11 @@ contract("C01", "gibbs_take_step", native=False)(gibbs_take_step)
 
 from contracts.mcmc_pca import pca_take_step
 contract("C01", "pca_take_step", native=False)(pca_take_step)
+
+
+from contracts.mcmc_hmc import hmc_take_step
+contract("C01", "hmc_take_step", native=False)(hmc_take_step)
+
+
+from contracts.mcmc_ensemble import ensemble_advance_walker
+contract("C01", "ensemble_advance_walker", native=False)(ensemble_advance_walker)
